@@ -90,11 +90,15 @@ Definition hremove (s : state) (h : hyb) (index : Z) (keep : bool) : state * hyb
             else mkH (kind h) (hmode h) d (emap h) (eN h) (eNact h) (ks h) (rc_rcrit h) (rc_coord h) ob
         | ITrace =>
             if (hmode h =? 1) || (hmode h =? 3) then
-              let '(m, eidx, ob') := emap_loop (eN h) 0 index (emap h) false (-1)%Z (hoob h) in
+              (* only in the Kepler step (mode 1) is encounter_map a list of indices; in REB_TRACE_MODE_FULL (3)
+                 the map, encounter_N and encounter_N_active are left alone *)
+              let is_list := hmode h =? 1 in
+              let '(m, eidx, ob') := if is_list then emap_loop (eN h) 0 index (emap h) false (-1)%Z (hoob h)
+                                     else (emap h, (-1)%Z, hoob h) in
               let '(k, ob'') := ks_rows (sN s - 1) 0 (sN s - 1) (sN s) i (ks h) ob' in
-              (* encounter_index is int, encounter_N_active unsigned: -1 compares as UINT_MAX *)
-              mkH (kind h) (hmode h) (dcrit h) m (eN h - 1)
-                  (if (0 <=? eidx)%Z && (eidx <? eNact h)%Z then (eNact h - 1)%Z else eNact h)
+              mkH (kind h) (hmode h) (dcrit h) m
+                  (if is_list && (0 <=? eidx)%Z then eN h - 1 else eN h)
+                  (if is_list && (0 <=? eidx)%Z && (eidx <? eNact h)%Z then (eNact h - 1)%Z else eNact h)
                   k (rc_rcrit h) (rc_coord h) ob''
             else h
         end in
@@ -124,6 +128,15 @@ Fixpoint ks_mark (cnt i n oldN : nat) (m k : list Z) (ob : nat) : list Z * nat :
            ks_mark c (S i) n oldN m (upd k dst 1%Z) (ob + chk (length m) i + chk (length k) dst)
   end.
 
+(* for (i=0;i<N;i++){ Ks[i*N+old_N] = 0; Ks[old_N*N+i] = 0; }   the new column and row *)
+Fixpoint ks_zero (cnt i n oldN : nat) (k : list Z) (ob : nat) : list Z * nat :=
+  match cnt with
+  | O => (k, ob)
+  | S c => let d1 := i * n + oldN in let k1 := upd k d1 0%Z in
+           let d2 := oldN * n + i in
+           ks_zero c (S i) n oldN (upd k1 d2 0%Z) (ob + chk (length k) d1 + chk (length k1) d2)
+  end.
+
 Definition hadd (s : state) (h : hyb) (p : particle) (newd : Z) : state * hyb :=
   let s1 := add s p in
   let n := sN s1 in
@@ -146,10 +159,13 @@ Definition hadd (s : state) (h : hyb) (p : particle) (newd : Z) : state * hyb :=
           let k0 := if grow then extend (ks h) (n * n) else ks h in
           let m := if grow then extend (emap h) n else emap h in
           let '(k1, ob1) := ks_grow oldN oldN k0 (hoob h) in
-          let '(k2, ob2) := ks_mark (eN h - 1) 1 n oldN m k1 ob1 in
-          mkH (kind h) (hmode h) (dcrit h) (upd m (eN h) (Z.of_nat oldN)) (S (eN h))
-              (if (sNact s =? -1)%Z then (eNact h + 1)%Z else eNact h) k2 (rc_rcrit h) (rc_coord h)
-              (ob2 + chk (length m) (eN h))
+          let '(kz, obz) := ks_zero n 0 n oldN k1 ob1 in
+          if hmode h =? 1 then
+            let '(k2, ob2) := ks_mark (eN h - 1) 1 n oldN m kz obz in
+            mkH (kind h) (hmode h) (dcrit h) (upd m (eN h) (Z.of_nat oldN)) (S (eN h))
+                (if (sNact s =? -1)%Z then (eNact h + 1)%Z else eNact h) k2 (rc_rcrit h) (rc_coord h)
+                (ob2 + chk (length m) (eN h))
+          else mkH (kind h) (hmode h) (dcrit h) m (eN h) (eNact h) kz (rc_rcrit h) (rc_coord h) obz
         else h
     end in
   (s1, h1).
